@@ -362,6 +362,26 @@ func hostileHeaders(good map[string][]string, key string, odd map[string][]byte,
 		"one-cert": {key: {world.IssuerChain(w.PKI.TcbSign)}}, "three-certs": {key: {world.IssuerChain(w.PKI.TcbSign, w.PKI.Root, w.PKI.Root)}},
 		"trailing-garbage": {key: {g + "garbage"}},
 	}
+	// issuer chains whose root names odd CRL distribution points (that is where the Root CA CRL is fetched from): a re-issue of
+	// the genuine root (same key and name, so the chain still validates) and a foreign root
+	for name, dps := range map[string][]string{
+		"ldap": {"ldap://ldap.example/cn=crl"}, "relative": {"crls/root.crl"}, "bad-escape": {"%zz"}, "unparsable": {"http://[::1"}, "empty-string": {""},
+		"file": {"file:///etc/passwd"}, "upper-case-scheme": {"HTTPS://CERTIFICATES.EXAMPLE/ROOT.CRL"}, "mixed": {"ldap://a/b", "crls/x", "http://unreachable.example/x.crl"},
+		"hundred": func() []string {
+			var l []string
+			for i := 0; i < 100; i++ {
+				l = append(l, fmt.Sprintf("ldap://h%d.example/", i))
+			}
+			return l
+		}(), "control-chars": {"http://a\x00b/\n"}, "very-long": {"http://" + strings.Repeat("a", 70000) + ".example/x.crl"},
+	} {
+		t := world.RootTemplate(world.Far)
+		t.CRLDistributionPoints = dps
+		re := world.Issue(t, nil, w.PKI.Root.Key)
+		m["root-reissued-with-distribution-points-"+name] = map[string][]string{key: {world.IssuerChain(w.PKI.TcbSign, re)}}
+		fr := world.Issue(t, nil, world.NewKey())
+		m["foreign-root-with-distribution-points-"+name] = map[string][]string{key: {world.IssuerChain(world.Issue(world.TcbSignTemplate(world.Far), fr, world.NewKey()), fr)}}
+	}
 	for name, pem := range odd {
 		c := &world.Cert{PEM: pem}
 		m["signer-"+name] = map[string][]string{key: {world.IssuerChain(c, w.PKI.Root)}}
